@@ -53,9 +53,9 @@ func (o outcome) coq() string {
 		}
 		var ks []string
 		for _, k := range o.Kids {
-			ks = append(ks, "text_elem "+vh.CoqHex([]byte(k.Name))+" "+vh.CoqHex(k.Val))
+			ks = append(ks, "text_elem "+chex([]byte(k.Name))+" "+chex(k.Val))
 		}
-		return "ONode (T " + ty + " " + vh.CoqHex([]byte(o.Name)) + " FNone " + vh.CoqList(ks) + ")"
+		return "ONode (T " + ty + " " + chex([]byte(o.Name)) + " FNone " + vh.CoqList(ks) + ")"
 	case "eof":
 		return "OEOF"
 	case "fatal":
@@ -302,7 +302,7 @@ func (h *H) encCase() {
 	for _, row := range t {
 		rows = append(rows, coqERow(row))
 	}
-	h.cw.Add(fmt.Sprintf("CaseEnc %s %s %s %s", vh.CoqN(int(delim)), vh.CoqList(rows), coqBools(trailing), vh.CoqHex(input)), desc)
+	h.cw.Add(fmt.Sprintf("CaseEnc %s %s %s %s", vh.CoqN(int(delim)), vh.CoqList(rows), coqBools(trailing), chex(input)), desc)
 	h.sum.Sample(desc)
 }
 
@@ -492,10 +492,10 @@ func (h *H) csvCase() {
 	h.judge(kind, desc, obs, exp, nt && mismatch == "")
 	var cs []string
 	for _, c := range cols {
-		cs = append(cs, "("+vh.CoqHex([]byte(c.Name))+", "+vh.CoqHex([]byte(c.node()))+")")
+		cs = append(cs, "("+chex([]byte(c.Name))+", "+chex([]byte(c.node()))+")")
 	}
 	term := fmt.Sprintf("CaseCsv (mkCsvDecl %s %s %s %s %s) %s %s", vh.CoqN(int(delim)), vh.CoqBool(replace), coqOptNat(headerIdx),
-		vh.CoqNat(dataIdx), vh.CoqList(cs), vh.CoqHex(input), coqOuts(obs))
+		vh.CoqNat(dataIdx), vh.CoqList(cs), chex(input), coqOuts(obs))
 	desc["observed"] = outStrings(obs)
 	h.cw.Add(term, desc)
 	h.sum.Sample(desc)
@@ -782,11 +782,11 @@ func (h *H) csv2Case() {
 					m["line_pattern"] = c.Sel.LinePat.regex()
 				}
 				cs = append(cs, m)
-				coqCols = append(coqCols, fmt.Sprintf("mkCol2 %s %s %s %s", vh.CoqHex([]byte(c.Name)), vh.CoqNat(c.Index), coqOptNat(c.Sel.LineIndex), coqOptPat(c.Sel.LinePat)))
+				coqCols = append(coqCols, fmt.Sprintf("mkCol2 %s %s %s %s", chex([]byte(c.Name)), vh.CoqNat(c.Index), coqOptNat(c.Sel.LineIndex), coqOptPat(c.Sel.LinePat)))
 			}
 		}
 		recs = append(recs, d.schema("columns", cs))
-		coqDecls = append(coqDecls, fmt.Sprintf("mkRec2 %s %s %s %s %s %s", vh.CoqHex([]byte(d.Name)), d.coqShape(), vh.CoqBool(i == p.tgt), d.coqMin(), d.coqMax(), vh.CoqList(coqCols)))
+		coqDecls = append(coqDecls, fmt.Sprintf("mkRec2 %s %s %s %s %s %s", chex([]byte(d.Name)), d.coqShape(), vh.CoqBool(i == p.tgt), d.coqMin(), d.coqMax(), vh.CoqList(coqCols)))
 	}
 	decl := map[string]interface{}{"delimiter": string(delim), "records": recs}
 	if replace {
@@ -845,7 +845,7 @@ func (h *H) csv2Case() {
 		h.sum.Hist("input>4096")
 	}
 	h.judge(kind, desc, obs, exp, nt)
-	term := fmt.Sprintf("CaseCsv2 %s %s %s %s %s", vh.CoqN(int(delim)), vh.CoqBool(replace), vh.CoqList(coqDecls), vh.CoqHex(input), coqOuts(obs))
+	term := fmt.Sprintf("CaseCsv2 %s %s %s %s %s", vh.CoqN(int(delim)), vh.CoqBool(replace), vh.CoqList(coqDecls), chex(input), coqOuts(obs))
 	desc["observed"] = outStrings(obs)
 	h.cw.Add(term, desc)
 	h.sum.Sample(desc)
@@ -966,7 +966,7 @@ func (h *H) fixed2Case() {
 			}
 		}
 		envs = append(envs, d.schema("columns", cs))
-		coqDecls = append(coqDecls, fmt.Sprintf("mkEnv2 %s %s %s %s %s %s", vh.CoqHex([]byte(d.Name)), d.coqShape(), vh.CoqBool(i == p.tgt), d.coqMin(), d.coqMax(), vh.CoqList(coqCols)))
+		coqDecls = append(coqDecls, fmt.Sprintf("mkEnv2 %s %s %s %s %s %s", chex([]byte(d.Name)), d.coqShape(), vh.CoqBool(i == p.tgt), d.coqMin(), d.coqMax(), vh.CoqList(coqCols)))
 	}
 	schema := schemaJSON("fixedlength2", map[string]interface{}{"envelopes": envs})
 	var exp []outcome
@@ -1009,7 +1009,7 @@ func (h *H) fixed2Case() {
 		h.sum.Hist("line>4096")
 	}
 	h.judge(kind, desc, obs, exp, ntf(cols))
-	term := fmt.Sprintf("CaseFixed2 %s %s %s", vh.CoqList(coqDecls), vh.CoqHex(input), coqOuts(obs))
+	term := fmt.Sprintf("CaseFixed2 %s %s %s", vh.CoqList(coqDecls), chex(input), coqOuts(obs))
 	desc["observed"] = outStrings(obs)
 	h.cw.Add(term, desc)
 	h.sum.Sample(desc)
@@ -1065,7 +1065,7 @@ func (h *H) fixed1Case() {
 			hp := &pat{Prefix: true, Lit: "H0"}
 			envs = append(envs, map[string]interface{}{"name": "hdr", "by_header_footer": map[string]interface{}{"header": hp.regex(), "footer": hp.regex()}, "not_target": true,
 				"columns": []map[string]interface{}{{"name": "h", "start_pos": 1, "length": 3}}})
-			coqEnvs = append(coqEnvs, fmt.Sprintf("mkEnv1 %s (Some (%s, %s)) 1%%nat true [mkFCol %s 1%%nat 3%%nat None None]", vh.CoqHex([]byte("hdr")), hp.coq(), hp.coq(), vh.CoqHex([]byte("h"))))
+			coqEnvs = append(coqEnvs, fmt.Sprintf("mkEnv1 %s (Some (%s, %s)) 1%%nat true [mkFCol %s 1%%nat 3%%nat None None]", chex([]byte("hdr")), hp.coq(), hp.coq(), chex([]byte("h"))))
 			if r.Chance(0.7) {
 				p.insts = append(p.insts, instance{decl: 0, tags: []string{"H0"}})
 			}
@@ -1091,7 +1091,7 @@ func (h *H) fixed1Case() {
 			coqCols = append(coqCols, c.coq())
 		}
 		envs = append(envs, map[string]interface{}{"name": "body", "by_header_footer": map[string]interface{}{"header": bp.regex(), "footer": ep.regex()}, "columns": cs})
-		coqEnvs = append(coqEnvs, fmt.Sprintf("mkEnv1 %s (Some (%s, %s)) 1%%nat false %s", vh.CoqHex([]byte("body")), bp.coq(), ep.coq(), vh.CoqList(coqCols)))
+		coqEnvs = append(coqEnvs, fmt.Sprintf("mkEnv1 %s (Some (%s, %s)) 1%%nat false %s", chex([]byte("body")), bp.coq(), ep.coq(), vh.CoqList(coqCols)))
 	}
 	input, nlines, ntf := h.fixedLines(&p, width, long)
 	schema := schemaJSON("fixed-length", map[string]interface{}{"envelopes": envs})
@@ -1159,7 +1159,7 @@ func (h *H) fixed1Case() {
 		h.sum.Hist("line>4096")
 	}
 	h.judge(kind, desc, obs, exp, ntf(cols))
-	term := fmt.Sprintf("CaseFixed1 %s %s %s", strings.ReplaceAll(vh.CoqList(coqEnvs), "%NAME%", vh.CoqHex([]byte(name))), vh.CoqHex(input), coqOuts(obs))
+	term := fmt.Sprintf("CaseFixed1 %s %s %s", strings.ReplaceAll(vh.CoqList(coqEnvs), "%NAME%", chex([]byte(name))), chex(input), coqOuts(obs))
 	desc["observed"] = outStrings(obs)
 	h.cw.Add(term, desc)
 	h.sum.Sample(desc)
@@ -1250,8 +1250,8 @@ func main() {
 	h.sum = vh.NewSummary("C06", o,
 		"logical tables / line sets run through csv, csv2, fixed-length and fixedlength2 via Transform.Read + RawRecord, plus the csv encoder against encoding/csv; "+
 			"non-trivial = (delimited) at least one field needs quoting, (fixed-length) at least one multi-byte rune lies before a column boundary; distinct by (schema, input)")
-	h.cw = vh.NewCaseWriter(o, "C06", "Base.Utf8 Base.Tree Model.Csv Model.Fixed Model.Delim", "c06case", "check_case")
-	h.cw.PerFile = 120
+	h.cw = vh.NewCaseWriter(o, "C06", "Base.Utf8 Base.Tree Model.Csv Model.Fixed Model.Delim Model.DelimPack.\nFrom Coq Require Import Uint63", "c06case", "check_case")
+	h.cw.PerFile = 200
 	if o.Replay != "" {
 		// a replay file written by bin/check has the case under "case"; corpus files too
 		h.replayFile(o.Replay, true)
@@ -1265,7 +1265,7 @@ func main() {
 			h.replayFile(f, false)
 		}
 	}
-	total := o.Count(1300, 30000)
+	total := o.Count(4000, 100000)
 	for c := 0; c < total; c++ {
 		switch k := h.r.Pick(10); {
 		case k < 2:
